@@ -7,6 +7,18 @@ props = [json.loads(l)["id"] for l in open(os.path.join(ROOT, "properties.jsonl"
 
 # id -> (technique, level text, level note, design ref)
 CHECKS = {
+ "C04": ("trace monitor over in-memory Subscribe streams with schedule perturbation at verif points; replay-vs-cache oracle at logical quiescence",
+         "Real cache + subscribe.Server driven by one writer goroutine per target (updates with unique values, leaf/subtree deletes, re-adds, Resets) while 2-6 STREAM subscriptions start at seeded moments under seeded delays / long holds at 7 schedule points and GOMAXPROCS 2/4/16. Every subscriber's exact response sequence is judged: exactly one sync (first for updates_only), every leaf present before the call and never deleted precedes the sync, values received were written and never go backwards, and replaying the responses equals the cache's matching content once a sentinel protocol establishes logical quiescence. Held = held on the interleavings produced; the evidence counts writes that landed in each registration/walk window.",
+         "One writer per target; subscription path shapes chosen so that streaming compatibility and query selection coincide; schedules perturbed, not enumerated; a sentinel undelivered for 40 s on an idle system counts as a violation.",
+         "3/C04"),
+ "C10": ("Go race detector (deciding) + porcupine linearizability checking of recorded histories (per path and whole tree) + interval checker for queries + deadlock watchdog",
+         "Concurrent histories on the real ctree.Tree recorded at the harness boundary (atomic tick clock, unique values): per-path linearizability of Add/Get/Query/Delete/handle-update against a register-with-absence model incl. quiescent final reads (porcupine, partitioned), whole-tree linearizability of small histories with prefix conflicts and subtree/wildcard/conditional deletes (porcupine, unpartitioned), an interval checker for Query/Walk/WalkSorted (present-throughout => reported, absent-throughout => not reported, values were written, no duplicates, sorted), a forced reader->writer upgrade window every third trial, and the race detector over a hostile all-operations workload; any race report whose access site is in ctree/tree.go is a violation.",
+         "Schedules explored by perturbation/gating and GOMAXPROCS variation, not enumerated; handle updates only on paths not deleted in that trial (detached-handle updates are unspecified); porcupine timeout => inconclusive.",
+         "3/C10"),
+ "C13": ("online trace-grammar monitor (per-target state machine) over the real manager + connection manager against a scripted bufconn gNMI server with fault scripts",
+         "The real manager.Manager over the real connection.Manager talks to a scripted gNMI server on bufconn: per target 3-8 sessions of 0-20 numbered messages ending in error / EOF / silence, dial refusals, receive timeouts, forced Reconnect and Remove+re-Add at seeded message indexes and during backoff, duplicate Add and unknown Remove/Reconnect. Every callback, connection attempt and stream opening feeds an online state machine: Connect only after the first message of a new stream, deliveries only in session and an in-order prefix of what that stream carried, exactly one Reset per ended stream before the next stream, backoff between attempts (one-sided), bounded retry progress, and no event after Remove returned.",
+         "Retry delays 20/40 ms; liveness restated as bounded progress (40 s grace, attributed by goroutine dump); silence observed for a 60 ms settling window; spurious reconnects tolerated as the statement allows.",
+         "3/C13"),
  "C09": ("reference-model differential monitor over exhaustive + random operation histories on the real ctree.Tree",
          "Every operation of every explored history is executed on the real tree and on a prefix-free-map model and the whole observable state (Walk, WalkSorted, wildcard queries, point lookups) plus the operation's own result is compared after every step. Exhaustive for all histories up to length 4 (5 thorough) over a 23-operation alphabet, seeded random beyond. Held = held on those executions.",
          "model.Tree is the specification (one trailing glob may match a leaf one element above); single goroutine; GetLeaf on a branch path is not required to be nil (relied on by the cache).",
